@@ -233,20 +233,21 @@ class Delegations:
         for k, v in self.delegations.items():
             inner_dict = {}
             if v.get_format() == DelegationFormat.SinglePool:
-                assert v.get_details_as_dict() is not None
+                # details with nothing set (e.g. all-zero capacities) encode as an empty dictionary
+                assert v.get_details() is not None
                 inner_dict[ABCPropertyGraphConstants.FIELD_POOL_ID] = ABCPropertyGraphConstants.SINGLE_POOL_NAME
                 if self.type == DelegationType.CAPACITY:
-                    inner_dict[ABCPropertyGraphConstants.FIELD_CAPACITIES] = v.get_details_as_dict()
+                    inner_dict[ABCPropertyGraphConstants.FIELD_CAPACITIES] = v.get_details_as_dict() or {}
                 else:
-                    inner_dict[ABCPropertyGraphConstants.FIELD_LABELS] = v.get_details_as_dict()
+                    inner_dict[ABCPropertyGraphConstants.FIELD_LABELS] = v.get_details_as_dict() or {}
             elif v.get_format() == DelegationFormat.PoolDefinition:
                 assert v.get_pool_name() is not None
-                assert v.get_details_as_dict() is not None
+                assert v.get_details() is not None
                 inner_dict[ABCPropertyGraphConstants.FIELD_POOL_ID] = v.get_pool_name()
                 if self.type == DelegationType.CAPACITY:
-                    inner_dict[ABCPropertyGraphConstants.FIELD_CAPACITIES] = v.get_details_as_dict()
+                    inner_dict[ABCPropertyGraphConstants.FIELD_CAPACITIES] = v.get_details_as_dict() or {}
                 else:
-                    inner_dict[ABCPropertyGraphConstants.FIELD_LABELS] = v.get_details_as_dict()
+                    inner_dict[ABCPropertyGraphConstants.FIELD_LABELS] = v.get_details_as_dict() or {}
             elif v.get_format() == DelegationFormat.PoolReference:
                 assert v.get_pool_name() is not None
                 inner_dict[ABCPropertyGraphConstants.FIELD_POOL] = v.get_pool_name()
